@@ -214,10 +214,24 @@ class SymPattern(object):
     def _concrete(self, name, string, *a, **kw):
         return getattr(self.real, name)(string, *a, **kw)
 
-    def search(self, string, *a, **kw):
+    def search(self, string, pos=0, endpos=None):
         if isinstance(string, str):
-            return self._concrete("search", string, *a, **kw)
-        raise Unsupported("re.search on a symbolic string")
+            if endpos is None:
+                return self.real.search(string, pos)
+            return self.real.search(string, pos, endpos)
+        # unanchored search = the first start position (left to right) at which an anchored match exists
+        sp = S()
+        if isinstance(pos, SInt):
+            pos = sp.realize(pos)
+        i = max(pos, 0)
+        while i <= string.maxlen:
+            if not (i <= string.n):
+                break
+            m = self.match(string, i, endpos)
+            if m is not None:
+                return m
+            i += 1
+        return None
 
     def fullmatch(self, string, *a, **kw):
         if isinstance(string, str):
